@@ -14,7 +14,7 @@ SeqsThorough ==
 SeqsTiny == {<<"xmin">>, <<"ymax">>, <<"xmin", "xmax", "ymin", "ymax">>}
 
 TargetsQuick    == {<<0, 0, 0, 0>>, <<1, 1, 1, 1>>, <<0, 0, 2, 2>>, <<1, 1, 0, 0>>}
-TargetsThorough == TargetsQuick \cup {<<0, 0, 1, 1>>, <<1, 1, 2, 2>>, <<2, 2, 1, 1>>, <<0, 1, 1, 1>>, <<1, 1, 1, 2>>, <<2, 2, 0, 0>>}
+TargetsThorough == TargetsQuick \cup {<<0, 0, 1, 1>>, <<0, 1, 1, 1>>, <<1, 1, 1, 2>>}
 \* lattices on which a target can lie strictly inside, with every single site and some rectangles
 SizesAround   == {<<4, 4>>, <<3, 4>>, <<4, 3>>}
 TargetsAround == {<<0, 0, 0, 0>>} \cup {<<i, i, j, j>> : i \in 0..3, j \in 0..3} \cup
